@@ -318,14 +318,17 @@ def representer_registration(ctx):
                          'Representer'}, kinds)
         top = ctx.g.run_toplevel('yatiml/dumper.py')
         effs = [e for p in top for e in p.effects if e.kind != 'new']
-        ok = len(effs) == 3 and all(
+        ok = len(effs) >= 3 and all(
             e.kind == 'call' and isinstance(e.target, G.Term)
             and G.canon(e.target.args[0]) == ('repoclass',
                                               'yatiml/dumper.py', 'Dumper')
-            and e.target.args[1] == 'add_representer' for e in effs)
-        ctx.ob('register::import-time', 'at import time yatiml registers '
-               'three representers, on yatiml.Dumper itself (never on '
-               'yaml.SafeDumper)', ok, effs)
+            and e.target.args[1] in ('add_representer',
+                                     'add_implicit_resolver')
+            for e in effs)
+        ctx.ob('register::import-time', 'everything yatiml registers at '
+               'import time (representers, implicit resolvers) is '
+               'registered on yatiml.Dumper itself, never on '
+               'yaml.SafeDumper', ok, effs)
         od = [p for p in ctx.g.run(
             'yatiml/dumper.py::Dumper.represent_ordereddict')]
         ok = len(od) == 1 and isinstance(od[0].ret, G.Term) and 'represent_dict' \
